@@ -3,6 +3,10 @@ MatchResult.apply is recursion over a self-nested record with dict-of-list trigg
 subset pyvc executes (no recursive datatypes).  The executable contracts of DESIGN.md A.3 (`wf`, `leaves`) are checked on every
 `apply` call of real parses, exhaustively on small synthetic matches, and for append / wrap; see c02_bounded.py."""
 from .c02_bounded import EXTRA, BOUNDED, MUTANTS, TRUSTED, NOT_COVERED  # noqa: F401
+from . import c02_root as _root  # noqa: E402,F401  (the deductive kernel: BaseFileSegment.root_parse, two region contracts)
+
+MUTANTS = list(MUTANTS) + list(_root.MUTANTS)
+TRUSTED = list(TRUSTED) + list(_root.TRUSTED)
 
 PROP = "C02"
 LEVEL = "exploration"
